@@ -24,6 +24,11 @@ RULE = ('random programs whose bodies nest ;, ->, -> without else and \\+ to dep
         '(origin "exhaustive-contdup": 576 / 3645 bodies). 15% of the random programs get adversarial identifiers (see C01).')
 TRUSTED_BASE = []
 
+def source_ties():
+    """source-level tie of compile_body / has_local_cut / localize_cuts (notes/TIE.md)"""
+    from lib import srctie
+    return srctie.check(ID)
+
 def gen(rng, tier):
     n = 240 if tier == 'quick' else 5000
     cases = []
